@@ -70,6 +70,13 @@ func (t *Tracker) SetFailDial(f func(attempt int) error) {
 	t.mu.Unlock()
 }
 
+// SetFailListen installs the per-attempt listen failure policy.
+func (t *Tracker) SetFailListen(f func(attempt int) error) {
+	t.mu.Lock()
+	t.FailListen = f
+	t.mu.Unlock()
+}
+
 // SetDialDelay installs the per-attempt delay of successful dials.
 func (t *Tracker) SetDialDelay(f func(attempt int) time.Duration) {
 	t.mu.Lock()
@@ -172,7 +179,10 @@ func (l *TrackListener) Close() error {
 // in lastAddr's port if one was bound before (so the scripted peer can redial), else 127.0.0.1:0.
 func (t *Tracker) ListenFunc(ctx context.Context, network, address string) (net.Listener, error) {
 	n := int(t.listens.Add(1)) - 1
-	if f := t.FailListen; f != nil {
+	t.mu.Lock()
+	f := t.FailListen
+	t.mu.Unlock()
+	if f != nil {
 		if err := f(n); err != nil {
 			return nil, err
 		}
